@@ -2,7 +2,9 @@
 import ast
 import struct
 
-from ..astutil import (U, dotted, get_class, get_method, get_function, methods, walk_local, is_self_attr, call_name, short, enum_member, params, classes)
+from ..astutil import (U, dotted, get_class, get_method, get_function, methods, walk_local, is_self_attr, call_name, short, enum_member, params, classes, all_functions)
+from ..cfg import CFG
+from ..dataflow import ReachingDefs
 from ..factmodel import FactoryModel, AVF
 from ..index import Index
 from ..polmodel import enum_table, attribute_name_tag_table
@@ -299,6 +301,52 @@ def check_lossless_decoders(ctx, pt):
     ctx.count('primitive_value_stores_in_readers', n, 8)
 
 
+
+def check_encoders_have_no_side_effects(ctx):
+    """C01.R9: encoding a value does not change it."""
+    ctx.rule('C01.R9', 'encoding has no side effect on the value: the write / write_value methods of kmip/core assign no field other than self.length (the computed length of the structure), and the module-level conversion functions the writers call (kmip/core/objects.py convert_*) assign no field of an object they were handed or took out of their argument - they build new objects or change copies; otherwise encoding a value under one KMIP version changes what the same value encodes to under another')
+    n_w = n_f = 0
+    for rel in ctx.src.modules('kmip/core'):
+        if rel.endswith('utils.py'):
+            continue
+        t = ctx.src.tree(rel)
+        for q, fn, cls in all_functions(t):
+            if cls is not None and fn.name in ('write', 'write_value'):
+                n_w += 1
+                for n in walk_local(fn):
+                    if isinstance(n, ast.Attribute) and isinstance(n.ctx, (ast.Store, ast.Del)) and U(n) != 'self.length':
+                        ctx.fail('C01.R9', '%s|stores %s' % (q, U(n)), '%s:%s %s' % (rel, n.lineno, q), 'the encoder assigns %s: encoding changes the value it encodes' % U(n))
+            elif cls is None and fn.name.startswith('convert_') and rel.endswith('objects.py'):
+                n_f += 1
+                ps = set(params(fn, skip_self=False))
+                g = CFG(fn)
+                rd = ReachingDefs(g)
+                from ..dataflow import node_of_expr
+
+                def fresh(e, node, depth=0):
+                    """the object denoted by e was built (or copied) inside this function"""
+                    if depth > 6:
+                        return False
+                    if isinstance(e, ast.Call):
+                        cn_ = call_name(e) or ''
+                        return cn_ in ('copy.deepcopy', 'copy.copy', 'deepcopy') or cn_[:1].isupper() or cn_.split('.')[-1][:1].isupper()
+                    if isinstance(e, ast.Name):
+                        if e.id in ps:
+                            return False
+                        defs = rd.reaching(node, e.id)
+                        return bool(defs) and all(isinstance(v, ast.AST) and dn is not None and fresh(v, dn, depth + 1) for _, v, dn in defs)
+                    return False
+                for n in walk_local(fn):
+                    if isinstance(n, ast.Attribute) and isinstance(n.ctx, (ast.Store, ast.Del)):
+                        nd = node_of_expr(g, n)
+                        ok = nd is not None and fresh(n.value, nd)
+                        ctx.check(ok, 'C01.R9', '%s|stores %s' % (q, U(n)), '%s:%s %s' % (rel, n.lineno, q), '%s is assigned on an object built or copied in the function' % U(n),
+                                  '%s assigns %s on an object that belongs to its argument: the writers of the template-attribute payloads call it while encoding under KMIP 2.0, so encoding changes the value (and what it encodes to under another version)' % (q, U(n)))
+    ctx.count('encoder_methods_scanned', n_w, 100)
+    ctx.count('conversion_functions_scanned', n_f, 2)
+    if not any(f.rule == 'C01.R9' for f in ctx.findings):
+        ctx.ok('C01.R9', 'kmip/core/**', '%d encoders and %d conversion functions assign nothing but self.length / fields of objects they built' % (n_w, n_f))
+
 def run(ctx):
     src = ctx.src
     sch = Schema(src)
@@ -467,6 +515,7 @@ def run(ctx):
     check_shared_defaults(ctx)
     check_truthiness(ctx, sch.ix)
     check_lossless_decoders(ctx, pt)
+    check_encoders_have_no_side_effects(ctx)
 
     # ---------------- R4 factories
     fm = FactoryModel(src, sch.ix)
